@@ -1,47 +1,2 @@
-/-
-  Instances.lean — the only place where the regenerated `Generated.params` / `Generated.facts`
-  meet the generic theorems: every side condition is decided here, by the kernel, on the
-  tables extracted from /repo's current sources.
--/
-import Frugal.Valid
-import Frugal.Facts
-import Frugal.Generated
-import Frugal.Skeleton
-namespace Frugal.Instances
-open Frugal
-
-theorem valid_sizes : Generated.params.validSizes = true := by decide
-theorem valid_simple : Generated.params.validSimple = true := by decide
-theorem valid_container : Generated.params.validContainer = true := by decide
-theorem valid_headers : Generated.params.validHeaders = true := by decide
-theorem valid_list : Generated.params.validList = true := by decide
-theorem valid_map : Generated.params.validMap = true := by decide
-theorem valid_minWire : Generated.params.validMinWire = true := by decide
-theorem valid_minWireFixed : Generated.params.validMinWireFixed = true := by decide
-theorem valid_skip : Generated.params.validSkip = true := by decide
-theorem valid_depth : Generated.params.validDepth = true := by decide
-theorem valid_bitset : Generated.params.validBitset = true := by decide
-theorem valid_span : Generated.params.validSpan = true := by decide
-theorem valid_binaryGuard : Generated.params.mapBinaryGuard = true := by decide
-theorem valid_binaryPtr : Generated.params.binarySeesThroughPtr = true := by decide
-
-theorem params_valid : Generated.params.valid = true := by
-  simp only [Params.valid, valid_sizes, valid_simple, valid_container, valid_headers, valid_list,
-    valid_map, valid_minWire, valid_minWireFixed, valid_skip, valid_depth, valid_bitset, valid_span,
-    valid_binaryGuard, valid_binaryPtr, Bool.and_self]
-
-theorem facts_legacyInert : Generated.facts.legacyInert = true := by decide
-theorem facts_envParsing : Generated.facts.envParsing = true := by decide
-theorem facts_recursionDiscipline : Generated.facts.recursionDiscipline = true := by decide
-theorem facts_lockDiscipline : Generated.facts.lockDiscipline = true := by decide
-theorem facts_allocationDiscipline : Generated.facts.allocationDiscipline = true := by decide
-theorem facts_typedAllocation : Generated.facts.typedAllocation = true := by decide
-theorem skeleton_decoder : Generated.facts.decoderSkeleton = Skeleton.decoder := by decide
-theorem skeleton_encoder : Generated.facts.encoderSkeleton = Skeleton.encoder := by decide
-theorem skeleton_resolver : Generated.facts.resolverSkeleton = Skeleton.resolver := by decide
-theorem facts_rollback : Generated.facts.rollbackOnFailedBuild = true := by decide
-theorem facts_buildProtocol : Generated.facts.buildProtocol = true := by decide
-theorem facts_bufferContract : Generated.facts.bufferContract = true := by decide
-theorem facts_steadyStateAllocFree : Generated.facts.steadyStateAllocFree = true := by decide
-
-end Frugal.Instances
+/- kept for compatibility: the regenerated tables' side conditions (see Inst/) -/
+import Frugal.Props.Inst.Params
